@@ -3,6 +3,7 @@ mod engine;
 mod framework;
 mod rng;
 mod simio;
+mod tw;
 
 use framework::*;
 
@@ -48,6 +49,13 @@ fn main() {
                 "C01" => checks::c01::run(tier, seed, &known),
                 "C02" => checks::c02::run(tier, seed, &known),
                 "C03" => checks::c03::run(tier, seed, &known),
+                "C05" => checks::tworld::run_c05(tier, seed, &known),
+                "C06" => checks::tworld::run_c06(tier, seed, &known),
+                "C07" => checks::tworld::run_c07(tier, seed, &known),
+                "C16" => checks::tworld::run_c16(tier, seed, &known),
+                "C18" => checks::tworld::run_c18(tier, seed, &known),
+                "C19" => checks::tworld::run_c19(tier, seed, &known),
+                "C20" => checks::tworld::run_c20(tier, seed, &known),
                 "C10" => checks::c10::run(tier, seed, &known),
                 "C15" => checks::c15::run(tier, seed, &known),
                 _ => {
